@@ -65,10 +65,11 @@ class Work:
     def build(self, tags="verif", race=False):
         """Build the driver from /repo's *current working tree* (replace => /repo)."""
         src = self.path("harness")
-        shutil.copytree(HARNESS, src, ignore=shutil.ignore_patterns("bin", "go.sum"))
-        gomod = open(os.path.join(src, "go.mod")).read().replace("=> /repo", "=> " + REPO)
-        open(os.path.join(src, "go.mod"), "w").write(gomod)
-        shutil.copy(os.path.join(REPO, "go.sum"), os.path.join(src, "go.sum"))
+        if not os.path.isdir(src):
+            shutil.copytree(HARNESS, src, ignore=shutil.ignore_patterns("bin", "go.sum"))
+            gomod = open(os.path.join(src, "go.mod")).read().replace("=> /repo", "=> " + REPO)
+            open(os.path.join(src, "go.mod"), "w").write(gomod)
+            shutil.copy(os.path.join(REPO, "go.sum"), os.path.join(src, "go.sum"))
         out = self.path("drive-race" if race else "drive")
         cmd = ["go", "build", "-tags", tags, "-o", out]
         if race:
